@@ -155,6 +155,10 @@ func (w *repoWorld) locations(loc int) *core.CRLLocations {
 	switch {
 	case loc == 4:
 		return &core.CRLLocations{CRLDistributionPoints: []string{"ldap://directory.example/cn=crl"}}
+	case loc == 6: // an http URL that cannot be parsed: a loader exists, but no location identifier can be computed
+		return &core.CRLLocations{CRLDistributionPoints: []string{"http://crl.example/list%zz6.crl"}}
+	case loc == 7: // the same next to a usable one
+		return &core.CRLLocations{CRLDistributionPoints: []string{"http://crl.example/list%zz7.crl", w.origin.URL("/loc7")}}
 	case loc == 5:
 		return &core.CRLLocations{CRLDistributionPoints: []string{"ldap://directory.example/cn=crl5", w.origin.URL("/loc5")}}
 	case loc >= 11:
@@ -344,7 +348,7 @@ func (w *repoWorld) apply(o repoOp) string {
 
 // spawnBaseline: would this handshake add a new entry (the background refresh is spawned only then)?
 func (w *repoWorld) spawnBaseline(cdp int) bool {
-	if cdp == 0 || cdp == 4 {
+	if cdp == 0 || cdp == 4 || cdp == 6 || cdp == 7 {
 		return false
 	}
 	id := w.identifier(cdp)
@@ -469,8 +473,8 @@ func (g *repoGen) history(cfg repoCfg, n int) []repoOp {
 	var ops []repoOp
 	rng := g.rng
 	g.hist++
-	if g.hist%3 != 0 {
-		ops = g.directed(cfg, g.hist)
+	if rng.Intn(3) != 0 { // (drawn, not counted: the configuration rotates with the history index)
+		ops = g.directed(cfg, rng.Intn(6))
 		n += len(ops) / 2
 	}
 	cdps := []int{1, 2, 5}
@@ -495,7 +499,7 @@ func (g *repoGen) history(cfg repoCfg, n int) []repoOp {
 			case r < 1:
 				o.CDP = 0
 			case r < 2:
-				o.CDP = 4
+				o.CDP = []int{4, 4, 6, 7}[rng.Intn(4)]
 			default:
 				o.CDP = cdps[rng.Intn(len(cdps))]
 			}
@@ -533,6 +537,8 @@ func runRepoHistory(r *Run, cfg repoCfg, ops []repoOp, pemEnc bool, record func(
 	}
 	record(cfg.opLine(), "ok")
 	record("repo unsupported 4", "ok")
+	record("repo unsupported 6", "ok") // no identifier can be computed: as unusable as a location without a loader
+	record("repo unsupported 7", "ok")
 	for _, loc := range []int{1, 2, 3, 5, 11, 12} {
 		o := repoOp{Kind: "serve", Loc: loc, Served: "garbage"}
 		record(o.line(), w.apply(o))
